@@ -94,6 +94,7 @@ def run(check, prog):
     minimiser_internals(check, prog)
     limit_sides(check, prog)
     probe_inside_limit(check, prog)
+    per_parameter_limits(check, prog)
     flat_index_roundtrip(check, prog)
     # bounds are inclusive on both sides of the hand-off: the optimiser's limits
     # table and the prior's own support predicate (rule shared with C14)
@@ -1708,6 +1709,60 @@ def flat_index_roundtrip(check, prog):
                   'axes are the stored dimensions with the stand-in %r renamed, the '
                   'other coordinates are kept' % standin,
                   loc, fail_detail=detail)
+
+
+def per_parameter_limits(check, prog):
+    """L12h: every parameter has limits of its own.  NmpfitStrategy.minimize
+    builds one description per parameter and then fills in `limited[k]` /
+    `limits[k]`; a list created once *outside* the loop and put into every
+    description is one list: every bounded parameter ends up with the limits of
+    the last one (decided on the syntax tree: equal displays are equal terms)."""
+    q = N + '.minimize'
+    fd = prog.func(q)
+    loc = prog.loc(q, fd)
+    MUT = (ast.List, ast.Dict, ast.Set, ast.ListComp, ast.DictComp)
+    loops = [n for n in ast.walk(fd) if isinstance(n, ast.For)]
+    shared = []
+    for lp in loops:
+        inside = {id(x) for x in ast.walk(lp)}
+        outer = {}
+        for n in ast.walk(fd):
+            if isinstance(n, ast.Assign) and id(n) not in inside and \
+                    len(n.targets) == 1 and isinstance(n.targets[0], ast.Name) and \
+                    isinstance(n.value, MUT) and n.lineno < lp.lineno:
+                outer[n.targets[0].id] = n
+        if not outer:
+            continue
+        # names of outer mutables placed into a structure built in the loop ...
+        placed = {}
+        for n in ast.walk(lp):
+            if isinstance(n, ast.Dict):
+                for k, v in zip(n.keys, n.values):
+                    if isinstance(v, ast.Name) and v.id in outer and \
+                            isinstance(k, ast.Constant):
+                        placed[k.value] = v.id
+            if isinstance(n, ast.Assign) and isinstance(n.value, ast.Name) and \
+                    n.value.id in outer and isinstance(n.targets[0], ast.Subscript) and \
+                    isinstance(n.targets[0].slice, ast.Constant):
+                placed[n.targets[0].slice.value] = n.value.id
+        # ... and updated through it
+        for n in ast.walk(lp):
+            if isinstance(n, (ast.Assign, ast.AugAssign)):
+                t = n.targets[0] if isinstance(n, ast.Assign) else n.target
+                if isinstance(t, ast.Subscript) and isinstance(t.value, ast.Subscript) \
+                        and isinstance(t.value.slice, ast.Constant) and \
+                        t.value.slice.value in placed:
+                    shared.append((n.lineno, t.value.slice.value,
+                                   placed[t.value.slice.value]))
+    check.require(not shared, 'L12-per-parameter-limits', 'NmpfitStrategy.minimize',
+                  'the limit entries of a parameter description are created for that '
+                  'parameter', loc,
+                  fail_detail='%s: the list `%s` is created once and shared by every '
+                  'description -- all bounded parameters get the scaled limits of the '
+                  'last bounded one (alpha\'s), and a parameter outside them makes '
+                  'mpfit give up with a status nobody reads' % (
+                      ', '.join('line %d [%r]' % (l, k) for l, k, _ in shared[:3]),
+                      shared[0][2] if shared else ''))
 
 
 def probe_inside_limit(check, prog):
